@@ -21,6 +21,7 @@ type PeerSpec struct {
 	DialErr bool  `json:"dial_err"` // the dial fails
 	Role   int    `json:"role"`    // 0 healthy, 1 stuck writer (never reads), 2 failing reader, 3 failing writer
 	Late   bool   `json:"late"`    // attached by a harness task while traffic addressed to it is already flowing
+	DialHold bool `json:"dial_hold,omitempty"` // the dial returns only when the driver lets it (after the role-fault point, or after the proxy was cancelled)
 }
 
 type PEnv struct {
@@ -84,6 +85,7 @@ func genProxyRaw(hostile bool) func(g *rand.Rand, tier string) any {
 				bad.Role, bad.Dial, bad.DialErr = 0, true, true
 			case 1:
 				bad.Role, bad.Dial = 0, true // slow dial
+				bad.DialHold = g.IntN(2) == 0
 			case 2:
 				bad.Dial = true // dialled on demand, then its connection fails (role 2 or 3)
 				if bad.Role == 1 {
@@ -267,6 +269,16 @@ func execProxyRaw(e *Env, pp any) {
 		}
 	}
 	dials := map[string]int{}
+	dialFails := map[string]int{}
+	dialGate := make(chan struct{})
+	dialReleased := false
+	releaseDial := func() {
+		if !dialReleased {
+			dialReleased = true
+			close(dialGate)
+		}
+	}
+	dialDoneEv := map[string]int{} // "<name>.<gen>" -> event number at which the dial callback returned
 	var releaseFn func(n string, r *Rpc)
 	maybeSent := map[string]int{}
 	attachedEv := map[string]int{} // late peers: event count when AddClient had returned
@@ -280,6 +292,9 @@ func execProxyRaw(e *Env, pp any) {
 		ps := dialable[id]
 		if ps == nil || ps.DialErr {
 			e.Note("fault.dial.error")
+			histMu.Lock()
+			dialFails[id]++
+			histMu.Unlock()
 			return nil, fmt.Errorf("cannot dial %s", id)
 		}
 		rp := peers[id]
@@ -294,6 +309,14 @@ func execProxyRaw(e *Env, pp any) {
 		}
 		rp.gen++
 		startReader(rp, rp.gen-1)
+		if ps.DialHold {
+			e.Note("fault.dial.held")
+			<-dialGate
+		}
+		dev := e.Log("dial.done", id, 0, "")
+		histMu.Lock()
+		dialDoneEv[fmt.Sprintf("%s.%d", id, rp.gen-1)] = dev
+		histMu.Unlock()
 		return b, nil
 	}, icpt, func(id string, reason error) {
 		histMu.Lock()
@@ -557,6 +580,9 @@ func execProxyRaw(e *Env, pp any) {
 		}
 		if !faultDone && sentN() >= p.FailAt {
 			faultDone = true
+			if p.CancelAt == 0 {
+				releaseDial()
+			}
 			if p.Reattach == 1 {
 				reattach()
 			}
@@ -581,8 +607,14 @@ func execProxyRaw(e *Env, pp any) {
 			cancelEv = e.Log("fault.proxy.cancel", "", 0, "")
 			pcancel()
 			e.Note("fault.proxy.cancel")
+			// a dial still in progress completes only after the cancellation has settled
+			if rr := e.Drive(nil); rr == Crashed || rr == StepLimit {
+				return
+			}
+			releaseDial()
 		}
 	}
+	releaseDial()
 	if !faultDone {
 		faultDone = true
 		doFail()
@@ -780,6 +812,23 @@ func execProxyRaw(e *Env, pp any) {
 			e.Violate(prop, "no-disconnect-callback", badRoleName(bad), "the connection of %s failed but the disconnect callback never named it", n)
 		}
 	}
+	// one failed connection is one report: a second callback for the same failure
+	// names a peer whose newer connection (if it re-attached meanwhile) is healthy
+	nDisc := map[string]int{}
+	for _, d := range discs {
+		nDisc[d]++
+	}
+	for n := range failed {
+		if ps := dialable[n]; ps != nil && ps.DialErr {
+			continue
+		}
+		histMu.Lock()
+		df := dialFails[n]
+		histMu.Unlock()
+		if nDisc[n] > 1+df {
+			e.Violate(prop, "duplicate-disconnect", badRoleName(bad), "one connection of %s failed (and %d later attempts to dial it); the disconnect callback named it %d times", n, df, nDisc[n])
+		}
+	}
 	for _, d := range discs {
 		ok := failed[d]
 		if ps := dialable[d]; ps != nil && ps.DialErr {
@@ -834,7 +883,27 @@ func execProxyRaw(e *Env, pp any) {
 				e.Violate(prop, "goroutine-leak", leakSite(l), "goroutine of the proxy still alive after its context was cancelled: %s", l)
 			}
 		}
-		_ = cancelEv
+		// forwarding stops: a connection's write loop may finish the one envelope it had
+		// already taken when the context ended, nothing more; a connection whose dial
+		// returns after the cancellation is not used at all
+		for _, t := range taps {
+			after := 0
+			t.l.mu.Lock()
+			for _, tp := range t.l.Tap {
+				if tp.N > cancelEv && !tp.Withdrawn {
+					after++
+				}
+			}
+			t.l.mu.Unlock()
+			histMu.Lock()
+			dd, dialled := dialDoneEv[fmt.Sprintf("%s.%d", t.name, t.gen)]
+			histMu.Unlock()
+			if dialled && dd > cancelEv && after > 0 {
+				e.Violate(prop, "forwarded-after-cancel", "proxy.connect", "the dial of %s returned (event %d) after the proxy's context was cancelled (event %d); the proxy went on to write %d envelope(s) to the new connection", t.name, dd, cancelEv, after)
+			} else if after > 1 {
+				e.Violate(prop, "forwarded-after-cancel", "proxy.writeLoop", "%d envelopes were written to %s (generation %d) after the proxy's context was cancelled (event %d): more than the one a write loop may have had in hand", after, t.name, t.gen, cancelEv)
+			}
+		}
 	}
 }
 
